@@ -1457,6 +1457,12 @@ class SSHConnection(SSHPacketHandler, asyncio.Protocol):
         error_logger.debug1('Uncaught exception', exc_info=exc_info)
         self._force_close(cast(Exception, exc_info[1]))
 
+    def protocol_error(self, exc: DisconnectError) -> None:
+        """Handle a protocol error found outside of packet processing"""
+
+        self._send_disconnect(exc.code, exc.reason, exc.lang)
+        self._force_close(exc)
+
     def session_started(self) -> None:
         """Handle session start when opening tunneled SSH connection"""
 
